@@ -948,13 +948,15 @@ class AnsiString:
             left_spaces = math.floor((num) / 2)
             right_spaces = num - left_spaces
             obj._s = fillchar * left_spaces + obj._s + fillchar * right_spaces
-            if extend_formatting:
-                # Move the removal settings from previous end to new end (formats the right fillchars with same as last char)
-                if old_len in obj._fmts:
-                    obj._fmts[len(obj._s)] = obj._fmts.pop(old_len)
             # Shift all indices except for the origin
             # (formats the left fillchars with same as first char when extend_formatting==True)
             obj._shift_settings_idx(left_spaces, extend_formatting)
+            if extend_formatting:
+                # Move the removal settings from previous end (now shifted) to new end
+                # (formats the right fillchars with same as last char)
+                shifted_end = old_len + left_spaces
+                if shifted_end in obj._fmts and shifted_end != len(obj._s):
+                    obj._fmts[len(obj._s)] = obj._fmts.pop(shifted_end)
 
         return obj
 
